@@ -23,6 +23,11 @@ typedef struct {
 	uint64_t memlimit;
 	uint32_t flags;
 
+	/// True if the input was detected to be in the .lzma format. The .xz
+	/// and .lz decoders handle LZMA_CONCATENATED and trailing data
+	/// themselves.
+	bool is_lzma_alone;
+
 	enum {
 		SEQ_INIT,
 		SEQ_CODE,
@@ -67,6 +72,7 @@ auto_decode(void *coder_ptr, const lzma_allocator *allocator,
 		} else {
 			return_if_error(lzma_alone_decoder_init(&coder->next,
 					allocator, coder->memlimit, true));
+			coder->is_lzma_alone = true;
 
 			// If the application wants to know about missing
 			// integrity check or about the check in general, we
@@ -87,7 +93,8 @@ auto_decode(void *coder_ptr, const lzma_allocator *allocator,
 				in, in_pos, in_size,
 				out, out_pos, out_size, action);
 		if (ret != LZMA_STREAM_END
-				|| (coder->flags & LZMA_CONCATENATED) == 0)
+				|| (coder->flags & LZMA_CONCATENATED) == 0
+				|| !coder->is_lzma_alone)
 			return ret;
 
 		coder->sequence = SEQ_FINISH;
@@ -187,6 +194,7 @@ auto_decoder_init(lzma_next_coder *next, const lzma_allocator *allocator,
 	coder->memlimit = my_max(1, memlimit);
 	coder->flags = flags;
 	coder->sequence = SEQ_INIT;
+	coder->is_lzma_alone = false;
 
 	return LZMA_OK;
 }
